@@ -1,12 +1,16 @@
 """C06 — integer-part functions and modulo follow their exact definitions (raw core correspondence + API level)."""
 from props import _core, _api
 
-LEVEL = "translation_validation"
-LEAN_MODULES = []
+LEVEL = "proof"
+LEAN_MODULES = ["Props.C06"]
 OPS = ["mround_int", "floor", "ceil", "nint", "frac", "mod", "to_int", "round_int"]
-ASSUMPTIONS = ["no Lean theorem is claimed yet for floor/ceil/nint/frac/mod/to_int: the model is validated against the code bit for bit "
-               "and every output is decided against the mathematical definition in exact rational arithmetic",
-               "x % 0 and math.floor/math.ceil (which go through float()) are outside the property text and only recorded"]
+ASSUMPTIONS = ["theorems (Props/C06.lean) are about the Lean model of mpf_round_int / mpf_floor / mpf_ceil / mpf_nint / mpf_frac / to_int / mpf_mod and the "
+               "componentwise complex versions; the model is tied to libmpf/libmpc by the bit-exact correspondence run of this check and every output is "
+               "additionally decided against the mathematical definition in exact rational arithmetic",
+               "mpf_mod is proved for precisions >= 1 (the context never passes 0); to_int is proved for the default truncation (the rounding variants are "
+               "covered by correspondence)",
+               "the public API glue (mp.floor/ceil/nint/frac, int(), %, fmod with int/float/mpf/mpc operands) is sampled, not proved; math.floor/math.ceil "
+               "(which go through float()) are outside the property text and only recorded"]
 
 
 def run(ctx):
